@@ -1,4 +1,5 @@
 """Checks decided with the in-process harness: C01-C13, C19."""
+import shutil
 import copy, json, os, random, sys, collections
 from . import core, engine, gen, canon, oracles as O
 
@@ -425,6 +426,16 @@ class C10(Prop):
                 q["max_travel_time"] = rng.choice([300, 450, 600, 750, 900, 1200, 1500, 1700])
             qa = dict(q); qa["alternatives"] = rng.choice(["1", "true"])
             rs.append(("route", q)); rs.append(("route", qa))
+        # a pair with three DIFFERENT walking maxima, the transfer maximum below a footpath of the data and the others above: a
+        # recalculation that hands the maxima over in another order lets a too long transfer walk into an alternative (seeded
+        # changes C02-r4 and C10-r5; the plain answer is calculated with the caller's own parameters and stays right)
+        q = gen.gen_query(rng, d, limits=False)
+        walks = sorted(set(t for a_, b_, t, x in d["foot"] if a_ != b_ and t > 0))
+        q["max_transfer_travel_time"] = max(1, (rng.choice(walks) - 1) if walks else 29)
+        q["max_egress_travel_time"] = rng.choice([1500, 2000, 0]); q["max_access_travel_time"] = rng.choice([1400, 2500])
+        q.pop("max_travel_time", None)
+        qa = dict(q); qa["alternatives"] = "1"
+        rs.append(("route", q)); rs.append(("route", qa))
         return rs
 
     def direct(self, d, kind, q, a, ctx):
@@ -737,6 +748,93 @@ class C13(Prop):
 
     def nontrivial(self, d, kind, q, a):
         return None
+
+    def after_run(self, cases, res, rep, stats, tier, seed):
+        """HTTP leg (round-5 change C13-r5: a value memoised in the geography filter the server shares between requests). The in-process
+        harness answers the walking look-ups from a table, so the server's own Euclidean geofilter is outside the streams above. Here the
+        real ASan binary runs with `--useEuclideanDistance 1`; every target request is first answered by a server started for it alone, then
+        asked again on a long-lived server after a history that contains requests from far-away latitudes (they fail with NO_ACCESS_*),
+        invalid requests, other scenarios and the other targets. Bodies must be identical."""
+        from . import httpkit as H
+        from . import http_checks as HC
+        from concurrent.futures import ThreadPoolExecutor
+        server = core.harness_phase(rep, "server", "asan")
+        cachegen = core.harness_phase(rep, "cachegen", "plain")
+        if not server or not cachegen: return
+        n0 = len(rep.direct)
+        wd = H.workdir("c13http")
+        for kd in range(2 if tier != "thorough" else 16):
+            rng = random.Random(seed * 613 + kd * 104729 + 13)
+            d = gen.gen_dataset(rng, rng.choice(["dense", "parallel", "sparse"]))
+            if any(not (0 <= t <= 32767 and 0 <= x <= 32767) for a, b, t, x in d["foot"]): continue
+            while len(d["scenarios"]) < 2:
+                d["scenarios"].append(dict(d["scenarios"][0]))
+            def point(east):
+                dl = rng.uniform(0.002, 0.008)
+                return "%.6f,%.6f" % (-73 + (dl if east else -dl), 45 + rng.uniform(-0.0005, 0.0005))
+            targets = []
+            for j in range(5):
+                kind = ["route", "accessibility", "route", "summary", "accessibility"][j]
+                q = gen.gen_query(rng, d, alt=(j == 2))
+                for key in ("max_access_travel_time", "max_egress_travel_time", "max_first_waiting_time"): q.pop(key, None)
+                q["scenario"] = rng.randrange(len(d["scenarios"]))
+                if kind == "accessibility": q["place"] = point(rng.random() < .5)
+                else: q["origin"] = point(False); q["destination"] = point(True)
+                targets.append(H.route_query(q, kind))
+            sid = H.uuid(6, 0)
+            far = ["/v2/route?origin=-73.004,61.05&destination=-72.996,61.05&scenario_id=%s&time_of_trip=30000" % sid,
+                   "/v2/accessibility?place=-73.003,5.25&scenario_id=%s&time_of_trip=30000" % sid,
+                   "/v2/route?origin=-73.004,-33.9&destination=-72.996,45&scenario_id=%s&time_of_trip=30000&time_type=1" % sid]
+            noise = ["/v2/route?origin=-73.004,45&destination=-72.996,45&scenario_id=%s" % sid,
+                     "/v2/route?origin=-73.004,45&destination=-72.996,45&scenario_id=%s&time_of_trip=30000" % H.uuid(6, 77),
+                     "/v2/summary?origin=x&destination=-72.996,45&scenario_id=%s&time_of_trip=30000" % sid]
+            for ca in (0, 1):
+                cdir = os.path.join(wd, "d%d-%d" % (kd, ca))
+                H.make_cache(d, cdir, did="C13h-%d-%d" % (seed, kd), cachegen=cachegen)
+                head = "#!c13http cacheall=%d\n%s" % (ca, gen.write_dataset(d, "C13h-%d-%d" % (seed, kd), []))
+                def alone(u):
+                    srv = H.start_server(cdir, threads=1, cache_all=bool(ca), euclid=True, exe=server, tag="c13a")
+                    try:
+                        if srv is None or not srv.alive(): return None
+                        st, hd, body, raw = srv.get(u, timeout=20.0)
+                        return (st, body)
+                    finally:
+                        if srv: srv.stop()
+                with ThreadPoolExecutor(max_workers=5) as ex:
+                    base = list(ex.map(alone, targets))
+                if any(b is None or b[0] is None for b in base):
+                    rep.direct.append(("server-startup", "server did not answer a single request after start-up", head)); continue
+                seq = [far[0] if ca == 0 else rng.choice(far + targets)]
+                rest = targets * 2 + far + noise
+                rng.shuffle(rest)
+                seq += rest
+                srv = H.start_server(cdir, threads=1, cache_all=bool(ca), euclid=True, exe=server, tag="c13h")
+                try:
+                    if srv is None or not srv.alive():
+                        rep.direct.append(("server-startup", "server did not start", head)); continue
+                    seen_far = False
+                    for i, u in enumerate(seq):
+                        st, hd, body, raw = srv.get(u, timeout=20.0)
+                        rep.evaluations += 1; stats["http history requests"] += 1
+                        if u in far: seen_far = True
+                        if u in targets:
+                            want = base[targets.index(u)]
+                            if (st, body) != want:
+                                stats["http history answer differs"] += 1
+                                rep.direct.append(("history-dependence-http",
+                                    "GET %s is answered %s %s by a server started for it alone but %s %s at position %d of a request sequence (real server, Euclidean geofilter, cacheAll=%d)" % (
+                                        u[:140], want[0], (want[1] or b"")[:160], st, (body or b"")[:160], i, ca),
+                                    head + "".join("get %s\n" % x for x in seq[:i + 1])))
+                                break
+                            elif seen_far and st == 200 and b'"status":"success"' in (body or b"").replace(b" ", b""):
+                                rep.nontrivial.add(hash(("c13http", kd, ca, i)))
+                                stats["http history: success answer after a far-away request"] += 1
+                    if not srv.alive() or srv.sanitizer_output():
+                        rep.direct.append(("server-crash-history", "server died / sanitizer report during a request sequence: %s" % srv.sanitizer_output()[:400], head))
+                finally:
+                    if srv: srv.stop()
+                shutil.rmtree(cdir, ignore_errors=True)
+        rep.obligation("http:history-independence-with-real-geofilter", len(rep.direct) == n0, "%d difference(s)" % (len(rep.direct) - n0))
 
 
 # ============================================================================ C19
